@@ -75,6 +75,43 @@ theorem pushThrowOrig_after {v v' : VRing α} (g : Good v) (e : v.pushThrowOrig 
 
 end VRing
 
+/-! ### `ring_write` ignores data beyond what fits, `ring_read` a request beyond what is stored -/
+
+theorem writeAux_take {α : Type} : ∀ (d : List α) {r : RingHead} {buf q : List α} (ret n : Nat),
+    Abs r buf q → r.size.toNat - 1 - q.length < n →
+    ringWriteAux (d.take n) r buf ret = ringWriteAux d r buf ret
+  | [], r, buf, q, ret, n, _, _ => by simp
+  | c :: rest, r, buf, q, ret, n, h, hn => by
+      obtain ⟨m, rfl⟩ : ∃ m, n = m + 1 := ⟨n - 1, by omega⟩
+      rw [List.take_succ_cons]
+      by_cases hroom : q.length < r.size.toNat - 1
+      · obtain ⟨e, ha⟩ := abs_putc c h hroom
+        have ih := writeAux_take rest (ret + 1) m ha (by
+          simp only [moveHeadOne_size, List.length_append, List.length_cons, List.length_nil]; omega)
+        simp only [ringWriteAux, e]
+        simpa using ih
+      · have hl := h.2.2.1
+        have := cnt_lt r h.1
+        have hfull : q.length = r.size.toNat - 1 := by omega
+        simp [ringWriteAux, abs_putc_full c h hfull]
+
+theorem readWith_past_end : ∀ (q : List Byte) {r : RingHead} {buf : List Byte} (acc : List Byte) (n m : Nat),
+    Abs r buf q → q.length < n → q.length < m →
+    ringReadWith ringGetc buf n r acc = ringReadWith ringGetc buf m r acc
+  | [], r, buf, acc, n, m, h, hn, hm => by
+      obtain ⟨n', rfl⟩ : ∃ k, n = k + 1 := ⟨n - 1, by simp at hn; omega⟩
+      obtain ⟨m', rfl⟩ : ∃ k, m = k + 1 := ⟨m - 1, by simp at hm; omega⟩
+      simp [ringReadWith, abs_getc_empty h]
+  | x :: q, r, buf, acc, n, m, h, hn, hm => by
+      obtain ⟨n', rfl⟩ : ∃ k, n = k + 1 := ⟨n - 1, by simp at hn; omega⟩
+      obtain ⟨m', rfl⟩ : ∃ k, m = k + 1 := ⟨m - 1, by simp at hm; omega⟩
+      obtain ⟨e, ha⟩ := abs_getc h
+      have hne : ((x.toNat : Int) == -1) = false := by
+        have : (0 : Int) ≤ (x.toNat : Int) := Int.natCast_nonneg _
+        simp only [beq_eq_false_iff_ne, ne_eq]; omega
+      simp only [ringReadWith, e, hne]
+      exact readWith_past_end q _ n' m' ha (by simp at hn; omega) (by simp at hm; omega)
+
 namespace UArr
 variable {α : Type}
 
